@@ -36,8 +36,9 @@ def judgeStream (d : DictRt) (fin : Fin) (via : String) (sizes : List Nat) (bs :
   let nmsgs := (sres.filter (fun r => match r with | .msg _ => true | _ => false)).length
   let last := match sres.getLast? with | some r => (showRes r).takeWhile (· ≠ ':') |>.toString | none => "none"
   { model := render mres mcons,
-    fails := if implStr ≠ render sres scons then
-        [s!"C05:outcomes-differ-from-length-only-split:{last}"] else [],
+    fails := (if implStr ≠ render sres scons then
+        [s!"C05:outcomes-differ-from-length-only-split:{last}"] else []) ++
+      (if impl.any (·.startsWith "panic") then ["C03:panic-while-reading-a-stream"] else []),
     tags := [s!"msgs={nmsgs} end={last} frags={src.frags.length} via={via} len={if bs.length ≤ 64 then "le64" else if bs.length ≤ 1100 then "le1100" else "big"}"],
     nontrivial := bs.length ≥ 1 }
 
